@@ -2,7 +2,10 @@
 
 package replica
 
-import "github.com/lindb/lindb/models"
+import (
+	"github.com/lindb/lindb/models"
+	"github.com/lindb/lindb/pkg/queue"
+)
 
 // VerifReplicators returns the follower node ids which the partition has replicators for
 // (verification harness only).
@@ -46,4 +49,10 @@ func VerifReplicaRound(p Partition, node models.NodeID) bool {
 	}
 	pp.replica(node, r)
 	return true
+}
+
+// VerifPartitionLog returns the write ahead log queue of the partition
+// (a partition created by the write ahead log manager keeps it to itself).
+func VerifPartitionLog(p Partition) queue.FanOutQueue {
+	return p.(*partition).log
 }
